@@ -80,7 +80,7 @@ func genSegDesc(t *rapid.T, allowForeign bool) ref.SpliceDesc {
 // genSplice draws a well-formed splice_info_section over the supported syntax.
 func genSplice(t *rapid.T, allowForeign bool) ref.Splice {
 	s := ref.Splice{TableID: 0xFC}
-	s.Proto = rapid.SampledFrom([]byte{0, 0, 0, 1, 0xFF}).Draw(t, "proto")
+	s.Proto = 0 // the only protocol_version SCTE 35 defines (a decoder may refuse others)
 	s.EncAlg = byte(rapid.SampledFrom([]int{0, 0, 0, 1, 63, 21}).Draw(t, "encalg"))
 	s.Adj = genBits(t, 33, "adj")
 	s.CW = rapid.Byte().Draw(t, "cw")
@@ -240,15 +240,46 @@ func cmpSplice(what string, m *ref.Splice, s scte35.SCTE35) *hx.Failure {
 	if len(ds) != len(segs) {
 		return hx.Failf("descriptor-count", "%s: %d segmentation descriptors decoded, %d encoded", what, len(ds), len(segs))
 	}
+	// the order in which Descriptors() lists them is not fixed by the statements (the interface documents "sorted by
+	// descriptor weight"): every encoded descriptor must be matched by a decoded one of its own; wire order is tried first
+	used := make([]bool, len(ds))
 	for k, w := range segs {
-		if f := cmpSegDesc(fmt.Sprintf("%s: descriptor %d", what, k), &w, ds[k]); f != nil {
-			return f
+		w := w
+		match := -1
+		var first *hx.Failure
+		for _, j := range append([]int{k}, seqExcept(len(ds), k)...) {
+			if used[j] {
+				continue
+			}
+			f := cmpSegDesc(fmt.Sprintf("%s: descriptor %d", what, k), &w, ds[j])
+			if f == nil {
+				match = j
+				break
+			}
+			if first == nil {
+				first = f
+			}
 		}
-		if ds[k].SCTE35() != s {
+		if match < 0 {
+			return first
+		}
+		used[match] = true
+		if ds[match].SCTE35() != s {
 			return hx.Failf("descriptor-backref", "%s: descriptor %d does not refer back to its enclosing signal", what, k)
 		}
 	}
 	return nil
+}
+
+// seqExcept lists 0..n-1 without k.
+func seqExcept(n, k int) []int {
+	var out []int
+	for i := 0; i < n; i++ {
+		if i != k {
+			out = append(out, i)
+		}
+	}
+	return out
 }
 
 func cmpSegDesc(what string, w *ref.SpliceDesc, d scte35.SegmentationDescriptor) *hx.Failure {
